@@ -273,6 +273,8 @@ func DoPanic(kind int, tok string) {
 		panic(strings.Repeat("L", 1<<20) + tok)
 	case 8:
 		panic(&Custom{A: 1, B: tok})
+	case 9:
+		panic(Stringer{tok})
 	}
 }
 
